@@ -11,6 +11,9 @@ ill-formed answers `bad-op`).
   LRVALID <slot>               `valid` | `invalid <first failing conjunct>`
   RUN <slot> <fuel> <syms>     `accept <tree>` | `error <code|N> <index> <state> <expected>` |
                                `internal <why>` | `out-of-fuel`
+  GEN <start> <startPrime> <eoi> <prods>
+                               the model generator `gen G` (level B): `gen conflicts=<0|1> n=<states>
+                               items=<..> actions=<..|?> gotos=<..>` | `gen out-of-fuel`
   LRTERM <slot>                `terminates` | `diverge below=<u|-> state=<s> key=<a>` (termination analysis)
   BISIM <slotA> <slotB>        `bisim ok pairs=<n> identity=<bool>` | `bisim mismatch path=<syms> at=<s>,<t> why=<..>`
   SAMERULES <slotA> <slotB>    `same` | `differ`
@@ -25,6 +28,7 @@ import Emboss.Model.Lr1
 import Emboss.Model.Lr1Valid
 import Emboss.Model.Lr1Bisim
 import Emboss.Model.Lr1Term
+import Emboss.Model.Lr1Gen
 import Std.Data.HashMap
 open Emboss.Lr1
 
@@ -135,6 +139,26 @@ def showResult : Result → String
     s!"error {showCode c} {i} {s} " ++ (if e.isEmpty then "-" else ",".intercalate (e.map toString))
   | .internal w => "internal " ++ w
   | .outOfFuel => "out-of-fuel"
+
+def showAction : Action → String
+  | .shift s => s!"S{s}"
+  | .reduce p => s!"R{p}"
+  | .accept => "A"
+  | .error c => "E" ++ showCode c
+
+def showGen (o : Gen.Out) : String :=
+  let items := ";".intercalate (o.cert.items.toList.zipIdx.map fun (l, i) =>
+    s!"{i}:" ++ ",".intercalate (l.map fun it => s!"{it.pi}.{it.dot}.{it.la}"))
+  let acts := if o.conflicts then "?" else
+    ";".intercalate ((o.aut.action.toList.zipIdx.filterMap fun (r, i) =>
+      match r with
+      | none => none
+      | some r =>
+        let r := (r.toArray.qsort (fun a b => a.1 < b.1)).toList
+        some (s!"{i}:" ++ ",".intercalate (r.map fun e => s!"{e.1}={showAction e.2}"))))
+  let gotos := ";".intercalate ((o.aut.goto.toList.zipIdx.filterMap fun (r, i) =>
+    if r.isEmpty then none else some (s!"{i}:" ++ ",".intercalate (r.map fun e => s!"{e.1}={e.2}"))))
+  s!"gen conflicts={if o.conflicts then 1 else 0} n={o.cert.items.size} items={items} actions={if acts.isEmpty then "-" else acts} gotos={if gotos.isEmpty then "-" else gotos}"
 
 /-! unverified search for the state pairing; its result is checked by the proved `bisimB` -/
 def allTargets (A : Automaton) : Nat :=
@@ -255,6 +279,13 @@ def handlePure (st : St) (line : String) : St × String :=
       let c := mkCert g c
       (st, if validFast g a c then "valid" else "invalid " ++ validWhy g a c)
     | _, _, _ => (st, "bad-op")
+  | ["GEN", start, sp, eoi, prods] =>
+    match start.toNat?, sp.toNat?, eoi.toNat?, parseRules prods with
+    | some start, some sp, some eoi, some prods =>
+      (st, match gen ⟨start, prods, sp, eoi⟩ with
+           | some o => showGen o
+           | none => "gen out-of-fuel")
+    | _, _, _, _ => (st, "bad-op")
   | ["LRTERM", slot] =>
     match st.auts[slot]? with
     | some a =>
